@@ -18,11 +18,11 @@ def run(c):
     th = c.thorough
     _dpadv.pipeline(
         c, "C06",
-        explores=[("table.quick", False), ("alert.quick", False)],
-        asfounds=[("table.asfound", ["InvC06"]), ("alert.asfound", ["InvC06"])],
+        explores=[("table.%s" % c.tier, False), ("alert.%s" % c.tier, False)],
+        asfounds=[("d3", ["InvC06"]), ("d13", ["InvC06"])],
         prefer=("linktype", "egressid", "alertin", "alerteg"),
-        budget=120000 if th else 14000,
-        rand={"rand": 20000 if th else 1500, "maxhops": 4, "kinds": ["scion"]},
+        budget=120000 if th else 8000,
+        rand={"rand": 20000 if th else 1000, "maxhops": 4, "kinds": ["scion"]},
         nontrivial=lambda e: e["o"]["disp"] in ("forward", "deliver") or
         (e["o"]["disp"] == "slow" and (e["o"]["code"] in (48, 49, 50, 53) or e["o"]["st"] < 0)))
     c.cov["rule"] = ("one event = one real packet through the real router, judged by C06Key/C06Reflect; non-trivial = "
